@@ -1,5 +1,7 @@
 import Robust.Irc.Proofs.Clean
 import Robust.Irc.Proofs.CleanEntry
+import Robust.Irc.Proofs.UlenRelay
+import Robust.Irc.Proofs.RcptCheck
 import Robust.Gen.Exprs
 /-!
 # C15 — every line sent to clients is a single well-formed IRC line
@@ -244,6 +246,297 @@ example :
   refine ⟨fun h => absurd (h.channels _ (List.mem_cons_self ..)).topic (by decide), ?_⟩
   refine ⟨utf8 ":robustirc.net 332 alice #c x\nQUIT", ?_, by decide +kernel⟩
   decide +kernel
+
+/-! ## "starting with a prefix and a command": the 510-byte cut never removes the command
+
+`IrcMsg.render` cuts the line at 510 bytes.  A line `:nick!user@host CMD …` therefore keeps its command only
+if the prefix is short.  Nicknames are at most 31 ASCII characters (`isValidNickname`), the host of a client
+is `robust/0x<hex id>` (at most 25 bytes for a `uint64` id); user names were unbounded — a client with a
+600-character user name made every line relayed under its prefix be cut *inside the prefix*
+(`C15_long_prefix_no_command`).  `cmdUser` and `cmdServerNick` now store `truncateUsername u` (30
+characters).
+
+* `HasCommand bytes` mirrors the monitor's predicate: the line starts with `':'` and a non-empty token follows
+  the first space, or it does not start with `':'` and starts with a non-empty token.  `cmdToken` is that token.
+* (a) `UInv st`: every stored user name has at most 30 characters and — for sessions a client can act as
+  (`id.reply = 0`) — no space.  Kept by all 41 handlers, `processMessage`, `applyEntry`, histories.
+* (b) the prefix of a stored client session has at most 178 bytes and no space.
+* (c) under such a prefix (and for server-prefixed replies under a short server name, and for lines without
+  prefix) the command token of the rendered line is exactly the command.
+
+Assumptions about services (trusted): the prefix of a services *link* is what its `SERVER` line says
+(`cmdServer`, not bounded in the model) and pseudo-clients introduced by services (`reply ≠ 0`) get a user name
+cut to 30 characters that may contain a space if services send one; both are excluded (`ClientSess`).
+Session ids are Raft indexes (`uint64`): `sid.id < 2^64` is a hypothesis. -/
+
+/-! ### (a) user names are bounded -/
+
+/-- what USER / services' NICK store has at most 30 characters -/
+theorem C15_username_truncated (u : String) : (truncateUsername u).toList.length ≤ 30 :=
+  truncateUsername_length u
+
+/-- … and short user names are stored unchanged -/
+theorem C15_username_short_unchanged (u : String) (h : u.toList.length ≤ 30) : truncateUsername u = u :=
+  truncateUsername_of_short h
+
+/-- the invariant, read off a stored session: at most 30 characters, hence at most 120 bytes -/
+theorem C15_username_bounded_stored (st : St) (h : UInv st) (sid : Id) (s : Session)
+    (hs : AMap.get st.sessions sid = some s) :
+    s.username.toList.length ≤ 30 ∧ s.username.utf8ByteSize ≤ 120 ∧ (s.id.reply = 0 → Spaceless s.username) := by
+  obtain ⟨h1, h2⟩ := h sid s hs
+  have h30 : s.username.toList.length ≤ 30 := h1
+  have := utf8ByteSize_le s.username
+  exact ⟨h30, by omega, h2⟩
+
+theorem C15_username_bounded_init : UInv ({} : St) := UInv_init
+
+/-- Handler level: every handler of the command table other than USER keeps `UInv` (for callers as
+`processMessage` provides them: `Pre`; `MidOK m` holds of every parsed message) … -/
+theorem C15_username_bounded_handler (fname : String) (h : Handler) (hh : handlerByName fname = some h)
+    (hne : fname ≠ "cmdUser") (c c' : Ctx) (sid : Id) (m : IrcMsg) (hp : Pre c sid) (hm : MidOK m)
+    (hu : UInv c.st) (hr : h c sid m = .ok c') : UInv c'.st :=
+  handler_upres hh hne c sid m c' hp hm hu hr
+
+/-- … and USER does, given two parameters (its table entry demands three, `user_minParams`): the stored
+user name is the first parameter — not the trailing one, hence without space — cut to 30 characters. -/
+theorem C15_username_bounded_user (c c' : Ctx) (sid : Id) (m : IrcMsg) (hm : MidOK m) (hl : 2 ≤ m.params.length)
+    (hu : UInv c.st) (hr : cmdUser c sid m = .ok c') : UInv c'.st :=
+  cmdUser_uinv hm hl hu hr
+
+/-- every parsed line satisfies `MidOK`: only the trailing parameter can contain a space -/
+theorem C15_parsed_midOK (raw : String) (m : IrcMsg) (hp : parseMessage raw = some m) : MidOK m :=
+  parseMessage_midOK hp
+
+theorem C15_username_bounded_processMessage (c c' : Ctx) (e : Entry) (im : Option IrcMsg) (hp : Pre c e.session)
+    (hn : NI c.st) (hm : ∀ m, im = some m → MidOK m) (hu : UInv c.st) (hr : processMessage c e im = .ok c') :
+    UInv c'.st :=
+  processMessage_uinv hp hn hm hu hr
+
+/-- **(a)** one committed entry of any type keeps the bound on user names -/
+theorem C15_username_bounded (st st' : St) (e : Entry) (out : List Out) (h : GInv st) (hu : UInv st)
+    (he : EntryOk st e) (hr : applyEntry st e = .ok (st', out)) : UInv st' :=
+  applyEntry_uinv st st' e out h hu he hr
+
+/-- histories: in every state reached from the empty one by a well-formed history, all invariants used below
+hold (`GInv`, the identity invariant `PInv` of C12, and `UInv`) -/
+theorem C15_username_bounded_history (es : List Entry) (st : St) (hw : WfHistory {} es)
+    (hr : runEntries {} es = .ok st) : GPUInv st :=
+  run_preserves_gpu GPUInv_init hw hr
+
+/-! ### (b) prefixes are bounded -/
+
+/-- `%x` of a `uint64` has at most 16 digits -/
+theorem C15_hexNat_digits (n : Nat) (h : n < 2 ^ 64) : (hexNat n).toList.length ≤ 16 := hexNat_length h
+
+/-- a valid nickname has at most 31 characters, all ASCII, none a space -/
+theorem C15_nick_bounded (x : String) (h : isValidNickname x = true) :
+    x.toList.length ≤ 31 ∧ Ascii x ∧ Spaceless x := validNick_bounds h
+
+/-- **(b)** the prefix `nick!user@robust/0x<hex id>` stored for a client session (not a services link,
+`reply = 0`, `uint64` id) has at most `31 + 1 + 120 + 1 + (9 + 16) = 178` bytes — 179 with the leading `':'` —
+and contains no space -/
+theorem C15_prefix_bounded (st : St) (h : GPUInv st) (sid : Id) (s : Session)
+    (hs : AMap.get st.sessions sid = some s) (hsrv : s.server = false) (h0 : sid.reply = 0)
+    (hid : sid.id < 2 ^ 64) :
+    s.ircPrefix.str.utf8ByteSize ≤ 178 ∧ Spaceless s.ircPrefix.str :=
+  (ClientSess.mk hs hsrv h0 hid).prefix (PfxCtx.of_gpu h)
+
+/-! ### (c) the rendered line has a command -/
+
+/-- **grammar**: for a non-empty command without space, under a prefix without space such that
+`":" prefix " " command` fits into 510 bytes (without prefix: the command fits and does not start with `':'`),
+the command token of the rendered line is exactly the command -/
+theorem C15_render_command_token (m : IrcMsg) (hne : m.command ≠ "") (hsp : Spaceless m.command)
+    (hpfx : ∀ p, m.pfx = some p → Spaceless p.str ∧ p.str.utf8ByteSize + m.command.utf8ByteSize + 2 ≤ 510)
+    (hnone : m.pfx = none → m.command.toList.head? ≠ some ':' ∧ m.command.utf8ByteSize ≤ 510) :
+    cmdToken m.render = utf8 m.command := render_cmdToken m hne hsp hpfx hnone
+
+theorem C15_render_has_command (m : IrcMsg) (hne : m.command ≠ "") (hsp : Spaceless m.command)
+    (hpfx : ∀ p, m.pfx = some p → Spaceless p.str ∧ p.str.utf8ByteSize + m.command.utf8ByteSize + 2 ≤ 510)
+    (hnone : m.pfx = none → m.command.toList.head? ≠ some ':' ∧ m.command.utf8ByteSize ≤ 510) :
+    HasCommand m.render := render_hasCommand m hne hsp hpfx hnone
+
+/-- the bound on the prefix cannot be dropped: under a prefix without space of 509 bytes or more the rendered
+line has no command (the violation before the fix) -/
+theorem C15_long_prefix_no_command (m : IrcMsg) (p : Prefix) (hp : m.pfx = some p) (hsp : Spaceless p.str)
+    (hlen : 509 ≤ p.str.utf8ByteSize) : ¬ HasCommand m.render :=
+  render_long_prefix_no_command m p hp hsp hlen
+
+/-- **relayed lines**: whatever is relayed under the stored prefix of a client session — `cmd` any good command
+(`GoodCmd`: not empty, no space, at most 330 bytes; decidable), any parameters however long — keeps its command -/
+theorem C15_relayed_has_command (st : St) (h : GPUInv st) (sid : Id) (s : Session)
+    (hs : AMap.get st.sessions sid = some s) (hsrv : s.server = false) (h0 : sid.reply = 0)
+    (hid : sid.id < 2 ^ 64) (cmd : String) (hg : GoodCmd cmd) (params : List String) :
+    cmdToken (IrcMsg.mk (some s.ircPrefix) cmd params).render = utf8 cmd ∧
+    HasCommand (IrcMsg.mk (some s.ircPrefix) cmd params).render :=
+  have ht := relayed_cmdToken (PfxCtx.of_gpu h) (ClientSess.mk hs hsrv h0 hid) hg params
+  ⟨ht, hasCommand_of_token ht hg.ne⟩
+
+/-- the relay commands are good -/
+example : GoodCmd "PRIVMSG" ∧ GoodCmd "NOTICE" ∧ GoodCmd "JOIN" ∧ GoodCmd "PART" ∧ GoodCmd "NICK" ∧
+    GoodCmd "QUIT" ∧ GoodCmd "KICK" ∧ GoodCmd "TOPIC" ∧ GoodCmd "MODE" ∧ GoodCmd "INVITE" ∧ GoodCmd "KILL" := by
+  decide
+
+/-- a command that the command table accepts (its upper-case form is a key of at most 82 characters without
+space) is good, e.g. `privmsg` -/
+theorem C15_dispatched_command_good (x K : String) (h : toUpper x = K) (hne : K ≠ "") (hsp : Spaceless K)
+    (hlen : K.toList.length ≤ 82) : GoodCmd x := goodCmd_of_toUpper h hne hsp hlen
+
+/-- **server-prefixed replies** keep their command when the server name is short and contains no space -/
+theorem C15_server_reply_has_command (c : Ctx) (hsp : Spaceless c.st.serverName)
+    (hlen : c.st.serverName.utf8ByteSize ≤ 63) (cmd : String) (hg : GoodCmd cmd) (params : List String) :
+    cmdToken (srv c cmd params).render = utf8 cmd ∧ HasCommand (srv c cmd params).render :=
+  have ht := srv_cmdToken ⟨hsp, hlen⟩ hg params
+  ⟨ht, hasCommand_of_token ht hg.ne⟩
+
+/-- the default server name qualifies -/
+example : Spaceless ({} : St).serverName ∧ ({} : St).serverName.utf8ByteSize ≤ 63 := by decide
+
+/-- **lines without prefix** (`ERROR :Closing Link …`) keep their command -/
+theorem C15_plain_has_command (cmd : String) (hg : GoodCmd cmd) (hcol : cmd.toList.head? ≠ some ':')
+    (params : List String) :
+    cmdToken (IrcMsg.mk none cmd params).render = utf8 cmd ∧ HasCommand (IrcMsg.mk none cmd params).render :=
+  have ht := plain_cmdToken hg hcol params
+  ⟨ht, hasCommand_of_token ht hg.ne⟩
+
+/-- **PRIVMSG / NOTICE, every line**: all lines `cmdPrivmsg` produces for a client session — the message relayed
+under the sender's prefix to a channel, to all users (`$` broadcast) or to one user, and the numeric replies
+411, 412, 403, 404, 481, 401, 301 — have a command. -/
+theorem C15_privmsg_has_command (c c' : Ctx) (sid : Id) (m : IrcMsg) (s : Session) (h : GPUInv c.st)
+    (hs : AMap.get c.st.sessions sid = some s) (hsrv : s.server = false) (h0 : sid.reply = 0)
+    (hid : sid.id < 2 ^ 64) (hsp : Spaceless c.st.serverName) (hlen : c.st.serverName.utf8ByteSize ≤ 63)
+    (hm : GoodCmd m.command) (hr : cmdPrivmsg c sid m = .ok c') :
+    ∃ new, c'.out = c.out ++ new ∧ ∀ o ∈ new, HasCommand o.data :=
+  cmdPrivmsg_hasCommand (PfxCtx.of_gpu h) ⟨hs, hsrv, h0, hid⟩ ⟨hsp, hlen⟩ hm hr
+
+/-- **all client commands (partial)**: every line that a client command produces and whose text the recipient
+classification of C12 characterises keeps its command: the lines relayed under the acting client's prefix
+(`LineShape.relayed`: PRIVMSG / NOTICE and the service aliases with the message's command, JOIN, PART, NICK,
+QUIT, KICK, TOPIC, MODE, INVITE), the victim's QUIT of a KILL (`victim`, if the victim is a client session) and
+the closing ERROR (`error`).  Not covered (`other`): numeric replies, server notices and lines for services,
+whose text C12 does not characterise; each of them is server-prefixed, so `C15_server_reply_has_command`
+applies to it, but the walk through the handlers that says so is not done. -/
+theorem C15_client_lines_have_command_partial (st : St) (h : GPUInv st) (sid : Id) (s : Session)
+    (hs : AMap.get st.sessions sid = some s) (hsrv : s.server = false) (h0 : sid.reply = 0)
+    (hid : sid.id < 2 ^ 64) (m : IrcMsg) (o : Out) (hl : ClientLine st sid s m o) : LineShape st s o :=
+  hl.shape (PfxCtx.of_gpu h) ⟨hs, hsrv, h0, hid⟩
+
+/-- … for a whole `IRCFromClient` entry of a client session: `stH` is the state in which the handler runs (the
+state before the entry up to `lastActivity` / `remoteAddr` / … of the acting session) -/
+theorem C15_entry_lines_have_command_partial (st st' : St) (e : Entry) (out : List Out) (s : Session)
+    (h : GPUInv st) (he : EntryOk st e) (ht : e.type = 2) (hs : AMap.get st.sessions e.session = some s)
+    (hsrv : s.server = false) (hid : e.session.id < 2 ^ 64) (hr : applyEntry st e = .ok (st', out)) :
+    ∃ stH sH, StBk st stH e.session ∧ AMap.get stH.sessions e.session = some sH ∧ Session.Bk s sH ∧
+      ∀ o ∈ out, LineShape stH sH o :=
+  applyEntry_client_shapes h he ht hs hsrv hid hr
+
+/-- … and for a `DeleteSession` entry (the QUIT the server generates) -/
+theorem C15_delete_lines_have_command_partial (st st' : St) (e : Entry) (out : List Out) (s : Session)
+    (h : GPUInv st) (he : EntryOk st e) (ht : e.type = 1) (hs : AMap.get st.sessions e.session = some s)
+    (hsrv : s.server = false) (hid : e.session.id < 2 ^ 64) (hr : applyEntry st e = .ok (st', out)) :
+    ∃ stH sH, StBk st stH e.session ∧ AMap.get stH.sessions e.session = some sH ∧ Session.Bk s sH ∧
+      ∀ o ∈ out, LineShape stH sH o :=
+  applyEntry_delete_shapes h he ht hs hsrv hid hr
+
+/-! ### non-vacuity -/
+
+/-- a user name of 600 characters -/
+def longUser : String := String.ofList (List.replicate 600 'u')
+
+/-- a 600-character `USER` parameter is stored as 30 characters -/
+example : (truncateUsername longUser).toList.length = 30 ∧
+    truncateUsername longUser = String.ofList (List.replicate 30 'u') := by
+  unfold truncateUsername takeChars longUser maxUserLen
+  simp only [String.toList_ofList, List.take_replicate, List.length_replicate]
+  exact ⟨rfl, rfl⟩
+
+example : truncateUsername "alice" = "alice" := by decide
+
+theorem longUser_spaceless : Spaceless longUser := by
+  unfold longUser
+  exact spaceless_ofList fun c hc => by rw [(List.mem_replicate.1 hc).2]; decide
+
+theorem longUser_bytes : longUser.utf8ByteSize = 600 := by
+  have ha : Ascii longUser := by
+    unfold Ascii longUser
+    rw [String.toList_ofList]
+    intro c hc; rw [(List.mem_replicate.1 hc).2]; decide
+  rw [utf8ByteSize_ascii ha]
+  unfold longUser
+  rw [String.toList_ofList, List.length_replicate]
+
+/-- before the fix: under the prefix `nick!uuu…u@robust/0x1` with the 600-character user name every relayed
+line is cut inside the prefix and has no command … -/
+example (cmd : String) (params : List String) :
+    ¬ HasCommand (IrcMsg.mk (some ⟨"nick", longUser, "robust/0x1"⟩) cmd params).render := by
+  refine C15_long_prefix_no_command _ _ rfl ?_ ?_
+  · unfold Prefix.str
+    refine spaceless_append (spaceless_append (by decide) ?_) ?_
+    · split
+      · exact spaceless_empty
+      · exact spaceless_append (by decide) longUser_spaceless
+    · exact by decide
+  · unfold Prefix.str
+    rw [utf8ByteSize_append, utf8ByteSize_append]
+    have hne : longUser.isEmpty = false := by
+      rw [Bool.eq_false_iff]; intro he
+      have := longUser_bytes
+      rw [String.isEmpty_iff_utf8ByteSize_eq_zero.1 he] at this
+      cases this
+    rw [hne]
+    simp only [Bool.false_eq_true, ↓reduceIte]
+    rw [utf8ByteSize_append, longUser_bytes]
+    omega
+
+/-- … after the fix the stored user name has 30 characters and the same line keeps its command -/
+example : cmdToken (IrcMsg.mk (some ⟨"nick", truncateUsername "uuuuuuuuuuuuuuuuuuuuuuuuuuuuuuuuuuuuuuuu", "robust/0x1"⟩)
+      "PRIVMSG" ["#c", "hi"]).render = utf8 "PRIVMSG" := by
+  unfold IrcMsg.render
+  simp only [utf8_eq_flatMap]
+  decide +kernel
+
+/-- the predicate on concrete lines -/
+example : HasCommand [58, 97, 33, 98, 64, 99, 32, 80, 73, 78, 71, 32, 120] ∧   -- ":a!b@c PING x"
+    HasCommand [80, 73, 78, 71] ∧                                                -- "PING"
+    ¬ HasCommand [58, 97, 33, 98, 64, 99] ∧                                      -- ":a!b@c"      (cut inside the prefix)
+    ¬ HasCommand [58, 97, 33, 98, 64, 99, 32] ∧                                  -- ":a!b@c "
+    ¬ HasCommand [] := by decide
+
+/-- the state of the demo satisfies all invariants, and its server name is short -/
+theorem demoSt_gpu : GPUInv demoSt :=
+  have h : GPInv demoSt := ginv_of_ginvB (by decide)
+  ⟨h.ginv, h.pinv, UInv.of_all (by decide)⟩
+
+theorem demoEntry_ok (data : String) : EntryOk demoSt (demoEntry data) :=
+  ⟨fun _ => rfl, fun h => by cases h⟩
+
+/-- the hypotheses of `C15_entry_lines_have_command_partial` are satisfiable, and for the relayed PRIVMSG of the
+demo its conclusion says that the command token is `PRIVMSG` -/
+example : ∃ st' out, applyEntry demoSt (demoEntry "PRIVMSG #c :hi there") = .ok (st', out) ∧
+    ∀ o ∈ out, cmdToken o.data = utf8 "PRIVMSG" := by
+  cases hr : applyEntry demoSt (demoEntry "PRIVMSG #c :hi there") with
+  | ok r =>
+    obtain ⟨st', out⟩ := r
+    refine ⟨st', out, rfl, fun o ho => ?_⟩
+    have hd := demo_relay
+    rw [hr] at hd
+    simp only [outData] at hd
+    obtain ⟨stH, sH, _, _, _, hsh⟩ := C15_entry_lines_have_command_partial demoSt st' _ out
+      (demoSt.sessions.head!).2 demoSt_gpu (demoEntry_ok _) rfl rfl rfl (by decide) hr
+    have hod : o.data = utf8 ":alice!a@robust/0x1 PRIVMSG #c :hi there" := by
+      cases out with
+      | nil => cases ho
+      | cons a t =>
+        cases t with
+        | nil =>
+          simp only [List.map_cons, List.map_nil, List.cons.injEq, and_true] at hd
+          rw [List.mem_singleton] at ho
+          rw [ho, hd]
+        | cons b t' => simp at hd
+    rw [hod, utf8_eq_flatMap, utf8_eq_flatMap]
+    decide +kernel
+  | panic s => have h := demo_relay; rw [hr] at h; cases h
+  | declined s => have h := demo_relay; rw [hr] at h; cases h
 
 /-! ## non-vacuity (byte level) -/
 
